@@ -361,7 +361,7 @@ pub fn drive_undoall() -> Vec<String> {
         ("new_sheet", Box::new(|m| m.new_sheet())), ("sheet color", Box::new(|m| m.set_sheet_color(0, &crate::types::Color::Rgb("#FF0000".to_string())))),
         ("grid lines", Box::new(|m| m.set_show_grid_lines(0, false))),
     ];
-    for (loc, lang) in [("en", "en"), ("de", "es")] {
+    for (loc, lang) in [("en", "en"), ("de", "es"), ("fr", "de"), ("en-GB", "it")] {
     let make = || { let mut m = make(); if loc != "en" { let _ = m.set_locale(loc); let _ = m.set_language(lang); } m };
     for (name0, op) in ops.iter() {
         let name = &format!("[{loc}/{lang}] {name0}");
